@@ -57,7 +57,11 @@ DevIdlessFrameLinksNotExported(r, t) ==
   /\ (Old(t.v) \/ MembersOK(E, G))
 \* re-import: observationally identical when the version can express the lexicon
 NoFrames(P) == [t \in NormTables |-> Norm(P)[t]]
-IdentityClaimed(r, t) == ~Old(t.v) \/ NoFrames(Project(r.src, t.v)) = NoFrames(AsSets(r.src))
+\* (WN-LMF 1.0 has no `members': a declared member order is observable and cannot
+\* come back from a 1.0 export)
+IdentityClaimed(r, t) ==
+  ~Old(t.v) \/ (/\ NoFrames(Project(r.src, t.v)) = NoFrames(AsSets(r.src))
+                /\ \A y \in Rng(r.src.synset) : y[9] = <<>>)
 ReimportOK(r, t) == IdentityClaimed(r, t) => (t.readd = "ok" /\ t.api_digest = r.api_digest)
 Fails(r) ==
   IF "timeout" \in DOMAIN r THEN {<<"Terminates", "-", "-">>} ELSE
